@@ -171,15 +171,17 @@ class Evaluator:
         self._pure_stack = set()
 
     # -- public ----------------------------------------------------------
-    def paths(self, fn):
-        r = self.cache.get(fn.key)
+    def paths(self, fn, loop_bound=None):
+        """loop_bound: visits per block and path (default LOOP_BOUND); a deeper unrolling is cached separately"""
+        ck = fn.key if loop_bound is None else (fn.key, loop_bound)
+        r = self.cache.get(ck)
         if r is None:
             self.in_progress.add(fn.key)
             try:
-                r = _Run(self, fn).run()
+                r = _Run(self, fn, loop_bound).run()
             finally:
                 self.in_progress.discard(fn.key)
-            self.cache[fn.key] = r
+            self.cache[ck] = r
         if isinstance(r, Exception):
             raise r
         return r
@@ -258,11 +260,12 @@ class _State:
 
 
 class _Run:
-    def __init__(self, ev, fn):
+    def __init__(self, ev, fn, loop_bound=None):
         self.ev = ev
         self.world = ev.world
         self.fn = fn
         self.out = []
+        self.loop_bound = loop_bound or LOOP_BOUND
 
     def run(self):
         fn = self.fn
@@ -517,7 +520,7 @@ class _Run:
         fn = self.fn
         while True:
             n = st.visits.get(bb, 0)
-            if n >= LOOP_BOUND:
+            if n >= self.loop_bound:
                 self.finish(st, "cut")
                 return
             st.visits[bb] = n + 1
